@@ -467,7 +467,7 @@ fn read_lazy(v: &LazyValue<'static>, m: &LM, what: &str) -> Result<(), Violation
                     let c = v.get(i).ok_or_else(|| Violation::new("mismatch/get", format!("{}: get({}) is None", what, i)))?;
                     oracle::check_scalars(&c, cj, what)?;
                     if c.as_raw_str() != &m.text[cs.start..cs.end] {
-                        return Err(Violation::new("mismatch/child-raw", format!("{}: element {} raw {:?} != {:?}", what, i, c.as_raw_str(), &m.text[cs.start..cs.end])));
+                        return Err(Violation::new("mismatch/child-raw", format!("{}: element {} raw {:?} != {:?}", what, i, oracle::truncate(c.as_raw_str()), &m.text[cs.start..cs.end])));
                     }
                 }
                 if v.get(a.len()).is_some() || v.get("0").is_some() {
@@ -496,7 +496,7 @@ fn read_lazy(v: &LazyValue<'static>, m: &LM, what: &str) -> Result<(), Violation
                     // first match wins when keys repeat; documents here have no duplicates
                     oracle::check_scalars(&c, cj, what)?;
                     if c.as_raw_str() != &m.text[cs.start..cs.end] {
-                        return Err(Violation::new("mismatch/child-raw", format!("{}: member {:?} raw {:?} != {:?}", what, k, c.as_raw_str(), &m.text[cs.start..cs.end])));
+                        return Err(Violation::new("mismatch/child-raw", format!("{}: member {:?} raw {:?} != {:?}", what, k, oracle::truncate(c.as_raw_str()), &m.text[cs.start..cs.end])));
                     }
                     let p = v.pointer(&[k.as_str()]).ok_or_else(|| Violation::new("mismatch/pointer", format!("{}: pointer([{:?}]) is None", what, k)))?;
                     if p.as_raw_str() != c.as_raw_str() {
